@@ -34,6 +34,8 @@ Result.deadlock    None | {"blocked": {rank: [name, peer]}, "finished": [...], "
 Result.timed_out   bool
 Result.ok          all ranks returned normally
 
+`comm.sub(k)` (coop mode only) returns a communicator over ranks 0..k-1 (None on the others): lets one run exercise
+several task counts.
 FakeComm implements what NIFTy uses: Get_size, Get_rank, send, recv, Send, Recv, bcast, Bcast, allgather,
 allreduce (SUM = Python `+`, folded in rank order), Barrier, gather, and `mark(label)`.
 Inside the children a stub module `mpi4py.MPI` is installed (`Intracomm = FakeComm`, `COMM_WORLD = comm`) so that
@@ -228,8 +230,12 @@ def run(nranks, fn, *args, seed=None, timeout=120.0, quiet=True, mode="coop"):
 # ---------------------------------------------------------------------------------------------------------
 # mode "coop": one forked child, ranks = cooperatively scheduled threads
 class _CoopComm(FakeComm):
-    def __init__(self, rank, size, sched):
-        self._rank, self._size, self._sched = rank, size, sched
+    def __init__(self, rank, size, sched, group=None):
+        self._rank, self._size, self._sched, self._group = rank, size, sched, group
+
+    def sub(self, k):
+        """communicator over the ranks 0..k-1 of this one (None on the other ranks); coop mode only"""
+        return _CoopComm(self._rank, k, self._sched, group=k) if self._rank < k else None
 
     def mark(self, label):
         self._sched.res.calls[self._rank].append(["mark", str(label)])
@@ -241,7 +247,7 @@ class _CoopComm(FakeComm):
         s.res.descs[r].append(desc)
         if (name in P2P_SEND or name in P2P_RECV) and not (isinstance(peer, int) and 0 <= peer < self._size):
             raise FakeMPIError(f"invalid rank {peer}")
-        s.pending[r] = (name, peer, payload)
+        s.pending[r] = (name, peer, payload, self._group)
         s.back.release()          # hand control to the scheduler ...
         s.go[r].acquire()         # ... and wait to be resumed
         tag, data = s.reply.pop(r)
@@ -299,23 +305,25 @@ class _CoopSched:
     def _enabled(self):
         ts = []
         n, pending = self.n, self.pending
-        for b, (name, peer, _) in sorted(pending.items()):
+        for b, (name, peer, _, g) in sorted(pending.items()):
             if name in P2P_SEND:
                 q = pending.get(peer)
-                if q is not None and q[0] in P2P_RECV and q[1] == b and peer != b:
+                if q is not None and q[0] in P2P_RECV and q[1] == b and peer != b and q[3] == g:
                     ts.append(("p2p", b, peer))
-        if len(pending) == n:
-            names = {(p[0], p[1]) for p in pending.values()}
-            if len(names) == 1 and next(iter(names))[0] in COLLECTIVES:
-                ts.append(("coll",) + next(iter(names)))
+        for g in sorted({p[3] or n for p in pending.values()}):
+            members = range(g)
+            if all(r in pending and (pending[r][3] or n) == g for r in members):
+                names = {(pending[r][0], pending[r][1]) for r in members}
+                if len(names) == 1 and next(iter(names))[0] in COLLECTIVES:
+                    ts.append(("coll",) + next(iter(names)) + (g,))
         return ts
 
     def _fire(self, t):
-        pending, reply, res, n = self.pending, self.reply, self.res, self.n
+        pending, reply, res = self.pending, self.reply, self.res
         if t[0] == "p2p":
             _, b, a = t
-            sname, _, payload = pending.pop(b)
-            rname, _, _ = pending.pop(a)
+            sname, _, payload, _ = pending.pop(b)
+            rname, _, _, _ = pending.pop(a)
             res.order.append(["p2p", b, a, sname + "/" + rname])
             if P2P_SEND[sname] != P2P_RECV[rname]:
                 msg = f"message kind mismatch: {sname} of rank {b} matched by {rname} of rank {a}"
@@ -323,11 +331,12 @@ class _CoopSched:
             else:
                 reply[a], reply[b] = ("ok", payload), ("ok", None)
             return [a, b]
-        _, name, root = t
-        res.order.append(["coll", name, root])
-        pls = [pending[r][2] for r in range(n)]
-        pending.clear()
-        for r in range(n):
+        _, name, root, g = t
+        res.order.append(["coll", name, root] + ([g] if g != self.n else []))
+        pls = [pending[r][2] for r in range(g)]
+        for r in range(g):
+            del pending[r]
+        for r in range(g):
             if name in ("allgather", "allreduce"):
                 reply[r] = ("ok", pls)
             elif name == "gather":
@@ -336,7 +345,7 @@ class _CoopSched:
                 reply[r] = ("ok", pls[root])
             else:
                 reply[r] = ("ok", None)
-        return list(range(n))
+        return list(range(g))
 
     def run(self):
         for t in self.threads:
